@@ -19,18 +19,19 @@ def OwnReply (x : Req × Nat × Result) : Prop := x.2.2 = .ok x.2.1 x.1.unit (ex
 
 instance (x : Req × Nat × Result) : Decidable (OwnReply x) := by unfold OwnReply; exact inferInstance
 
-/-- what a caller may legitimately be handed:
+/-- what a caller may legitimately be handed (`attempts` = how many times the client transmits a request at most):
     * the connection exception raised by `BaseModbusClient.execute` — only when a connection attempt was refused
       (`cok k = false` for some attempt `k`);
     * the broadcast marker — exactly for a broadcast;
-    * its own error object (`ModbusIOException`) — only when the peer did not answer this very request (`lost`);
+    * its own error object (`ModbusIOException`) — only when the peer answered none of the transmissions of this very
+      request (`attempts ≤ lost`);
     * otherwise the reply to its own request.
     Never somebody else's reply, never an error while the peer answers. -/
-def Answered (cok : Nat → Bool) (x : Req × Nat × Result) : Prop :=
+def Answered (cok : Nat → Bool) (attempts : Nat) (x : Req × Nat × Result) : Prop :=
   (x.2.2 = .raised .modbusExc ∧ ∃ k, cok k = false) ∨
   (x.1.bcast = true ∧ x.2.2 = .bcastSent) ∨
-  (x.1.bcast = false ∧ x.1.lost = true ∧ x.2.2 = .err .modbusIO) ∨
-  (x.1.bcast = false ∧ x.1.lost = false ∧ OwnReply x)
+  (x.1.bcast = false ∧ attempts ≤ x.1.lost ∧ x.2.2 = .err .modbusIO) ∨
+  (x.1.bcast = false ∧ x.1.lost < attempts ∧ OwnReply x)
 
 /-- request frames are never interleaved on the transport: the chunks come in pairs (header, rest) written by the same
     thread to the same connection with nothing in between (the last frame may still be half written) -/
